@@ -33,6 +33,9 @@ type World struct {
 	condMon  map[string]*MonitorSpec // "pkg::Type.condfield"
 	constErr map[string]bool         // "G:pkg.name" of error variables assigned only by their package initialiser
 	specErr  []string
+	knownFuncs   map[string][]string // package path -> functions that existed on the baseline tree (optional)
+	knownSet     map[string]bool
+	baseLoopSigs map[string][]string // pkg::func -> loop signatures in baseline ordinal order (optional)
 }
 
 func loadWorld(repo string, patterns []string, libDir string, overlay map[string][]byte) (*World, error) {
@@ -365,4 +368,43 @@ func namedKey(t types.Type) (string, bool) {
 		pkg = n.Obj().Pkg().Path()
 	}
 	return pkg + "::" + n.Obj().Name(), true
+}
+
+// isNewFunc: the function did not exist when the baseline was recorded (a helper the change under test introduced).  Such a
+// callee has no contract and could not have one; it is executed in place instead of being abstracted.
+func (w *World) isNewFunc(fn *ssa.Function) bool {
+	if w.knownFuncs == nil || fn == nil || fn.Pkg == nil || fn.Parent() != nil || len(fn.Blocks) == 0 || fn.Synthetic != "" {
+		return false
+	}
+	path := fn.Pkg.Pkg.Path()
+	if _, ok := w.knownFuncs[path]; !ok || !w.rootPkg[path] {
+		return false
+	}
+	if w.knownSet == nil {
+		w.knownSet = map[string]bool{}
+		for p, l := range w.knownFuncs {
+			for _, n := range l {
+				w.knownSet[p+"::"+n] = true
+			}
+		}
+	}
+	return !w.knownSet[path+"::"+fn.RelString(fn.Pkg.Pkg)]
+}
+
+// allRootFuncs lists the named functions (with bodies) of the loaded root packages.
+func (w *World) allRootFuncs() map[string][]string {
+	out := map[string][]string{}
+	for fn := range ssautil.AllFunctions(w.prog) {
+		if fn.Pkg == nil || !w.rootPkg[fn.Pkg.Pkg.Path()] || fn.Synthetic != "" || fn.Parent() != nil || len(fn.Blocks) == 0 {
+			continue
+		}
+		if strings.HasSuffix(w.fset.Position(fn.Pos()).Filename, "_test.go") {
+			continue
+		}
+		out[fn.Pkg.Pkg.Path()] = append(out[fn.Pkg.Pkg.Path()], fn.RelString(fn.Pkg.Pkg))
+	}
+	for _, l := range out {
+		sort.Strings(l)
+	}
+	return out
 }
